@@ -140,6 +140,22 @@ def Inv (r : TrackRows) : Bool :=
 
 def DbInv (d : Db) : Prop := ∀ id r, d.rows id = some r → Inv r = true
 
+/-! ### the `Track` table's own constraints -/
+
+/-- Primary key of `Track`: no id occurs twice. -/
+def KeysDistinct (d : Db) : Prop := (d.tracks.map (·.1)).Nodup
+
+/-- `UNIQUE ([path])` of the `Track` table from 1.11.1 on: no two tracks hold the same path. -/
+def PathsUnique (d : Db) : Prop :=
+  d.schema.ge .s1_11_1 = true →
+    ∀ e1 ∈ d.tracks, ∀ e2 ∈ d.tracks, e1.1 ≠ e2.1 → ∀ p, e1.2.track.path = some p → e2.2.track.path ≠ some p
+
+/-- The constraints of the `Track` table together with the row invariant. -/
+structure TableOk (d : Db) : Prop where
+  keys : KeysDistinct d
+  paths : PathsUnique d
+  rows : DbInv d
+
 /-- `std::ceil` keeps a double of magnitude below 2^63 inside the range of `int64_t` — the one law of
 the otherwise opaque double arithmetic `FOps` that `set_bpm` relies on (`static_cast<int64_t>(std::ceil(bpm))`). -/
 def CeilInRange (o : FOps) : Prop := ∀ b, Fl.absLt63 b = true → ∃ i, Fl.toI64 (o.ceil b) = some i
